@@ -74,6 +74,8 @@ func checkC05(run *mon.Run, rng *mon.Rand, thorough bool) {
 		}
 	}
 
+	c05ChainTypes(run, env)
+	c05LongRange(run)
 	c05Lattice(run, rng)
 
 	// ---- timelines ----
@@ -196,4 +198,75 @@ func boundaryClass(off time.Duration) string {
 		return "<=-1s"
 	}
 	return "band"
+}
+
+// c05ChainTypes: a non-positive period is refused whatever data-availability chain the bridge names for its batches.
+func c05ChainTypes(run *mon.Run, env *L1Env) {
+	for _, ct := range []ophosttypes.BatchInfo_ChainType{ophosttypes.BatchInfo_CHAIN_TYPE_CELESTIA, ophosttypes.BatchInfo_CHAIN_TYPE_UNSPECIFIED, ophosttypes.BatchInfo_ChainType(7)} {
+		for _, p := range c05Periods {
+			for _, submitter := range []string{env.Users[1].String(), "celestia1freeformsubmitter"} {
+				cfg := bridgeConfig(env.Users[1].String(), env.Users[2].String(), p, nil)
+				cfg.BatchInfo = ophosttypes.BatchInfo{Submitter: submitter, ChainType: ct}
+				br := env.Branch()
+				res := br.L1.Deliver(ophosttypes.NewMsgCreateBridge(env.Users[0].String(), cfg))
+				run.Evaluations++
+				tr := []string{fmt.Sprintf("MsgCreateBridge period=%d ns batch chain type=%s submitter=%s -> %s %s", int64(p), ct, submitter, res.Class, res.ErrString())}
+				if res.Class == sim.OK {
+					run.Check("C05.positive_period_only", p > 0, "c05.nonpositive_period_accepted.chain_type", tr, "MsgCreateBridge with batch chain type %s accepted finalization period %s", ct, p)
+				}
+				if err := cfg.ValidateWithNoAddrValidation(); err == nil {
+					run.Check("C05.positive_period_only", p > 0, "c05.nonpositive_period_accepted_l2_validate.chain_type", tr, "BridgeConfig.ValidateWithNoAddrValidation (batch chain type %s) accepted period %d ns", ct, int64(p))
+				}
+				run.Distinct(fmt.Sprintf("C05/create/%s/period=%d/%s", ct, int64(p), res.Class))
+			}
+		}
+	}
+}
+
+// c05LongRange: a deletion range that starts at a final output is refused however many pending outputs follow it, and
+// the final outputs are what they were afterwards.
+func c05LongRange(run *mon.Run) {
+	for _, n := range []int{10, 64, 65, 70, 140} {
+		period := 50 * time.Second
+		env := newL1EnvAt(1, []time.Duration{period}, time.Unix(1_700_000_000, 0).UTC())
+		roles := env.Bridges[1]
+		const finalPrefix = 3
+		for i := 1; i <= finalPrefix+n; i++ {
+			if i == finalPrefix+1 {
+				env.L1.NextBlock(period + time.Second) // outputs 1..3 are final from here on
+			}
+			r := c11Root(uint64(i), uint64(i*10), 0)
+			if res := env.L1.Deliver(ophosttypes.NewMsgProposeOutput(roles.Proposer.String(), 1, uint64(i), uint64(i*10), r[:])); res.Class != sim.OK {
+				panic(res.ErrString())
+			}
+		}
+		before := fmt.Sprint(c11ReadLog(env.L1, 1))
+		for _, from := range []uint64{1, 2, 3} {
+			for _, who := range []string{roles.Challenger.String(), env.L1.Gov} {
+				res := env.L1.Deliver(ophosttypes.NewMsgDeleteOutput(who, 1, from))
+				run.Evaluations++
+				after := fmt.Sprint(c11ReadLog(env.L1, 1))
+				tr := []string{fmt.Sprintf("3 final outputs followed by %d pending ones; delete from %d -> %s %s", n, from, res.Class, res.ErrString())}
+				run.Check("C05.final_not_deletable", res.Class != sim.OK, "c05.long_range_deleted_final_output", tr, "a deletion range starting at final output %d (followed by %d pending outputs) was accepted", from, n)
+				run.Check("C05.final_is_irreversible", before == after || res.Class == sim.OK, "c05.long_range_changed_log", tr, "a refused deletion changed the output log")
+				if res.Class == sim.OK {
+					return
+				}
+			}
+		}
+		// the pending suffix itself can be challenged as a whole; the final prefix stays byte-identical and is still final
+		res := env.L1.Deliver(ophosttypes.NewMsgDeleteOutput(roles.Challenger.String(), 1, finalPrefix+1))
+		idx, outs := c11ReadLog(env.L1, 1)
+		next, _ := env.L1.K.GetNextOutputIndex(env.L1.Ctx, 1)
+		run.Evaluations++
+		ok := res.Class == sim.OK && len(idx) == finalPrefix && next == finalPrefix+1
+		for i := 0; ok && i < finalPrefix; i++ {
+			r := c11Root(uint64(i+1), uint64((i+1)*10), 0)
+			ok = idx[i] == uint64(i+1) && string(outs[i].OutputRoot) == string(r[:])
+		}
+		run.Check("C05.nonfinal_deletable", ok, "c05.long_range_pending_suffix", []string{fmt.Sprintf("delete from 4 with %d pending outputs -> %s %s; %d outputs left, next %d", n, res.Class, res.ErrString(), len(idx), next)}, "deleting the %d pending outputs after 3 final ones left %d outputs and next index %d", n, len(idx), next)
+		lf, err := env.L1.Q.LastFinalizedOutput(env.L1.Ctx, &ophosttypes.QueryLastFinalizedOutputRequest{BridgeId: 1})
+		run.Check("C05.last_finalized_query", err == nil && lf.OutputIndex == finalPrefix, "c05.long_range_last_finalized", nil, "after the challenge the last finalized output is %v (err %v), expected index 3", lf, err)
+		run.Distinct(fmt.Sprintf("C05/long-range/%d", n))
+	}
 }
